@@ -127,7 +127,7 @@ var keptExporters = map[string]*keptExporter{}
 var emitTypedCount int
 
 func emitTypedWith(cw *caseWriter, f, ty string, v interface{}, batchBack string) {
-	t := jsonline.NewTemplate().With("c", formatByName[f], tySample[ty])
+	t := jsonline.NewTemplate().With("c", formatByName[f], nextSample(ty))
 	ext := map[string]string{}
 	extForValue(v, ext)
 	written, back1, back2 := "-", "-", "-"
@@ -236,7 +236,7 @@ func emitImpFor(cw *caseWriter, prop, f, ty string, v interface{}) {
 //
 //	setcol \t <prop> \t <format> \t <ty> \t <Dyn v> \t <ext> \t <ok <Dyn raw> => <Dyn exported | ERR> | panic …>
 func emitSetCol(cw *caseWriter, prop, f, ty string, v interface{}, byIndex bool) {
-	t := jsonline.NewTemplate().With("c", formatByName[f], tySample[ty])
+	t := jsonline.NewTemplate().With("c", formatByName[f], nextSample(ty))
 	ext := map[string]string{}
 	extForValue(v, ext)
 	if sv, ok := v.(string); ok {
@@ -274,7 +274,7 @@ func emitSetCol(cw *caseWriter, prop, f, ty string, v interface{}, byIndex bool)
 // a column declared (f2, ty2) from then on, range checks included. The case is judged as an import of v into a
 // column (f2, ty2).
 func emitImpAfterValue(cw *caseWriter, prop, f, ty, f2, ty2 string, held, v interface{}) {
-	t := jsonline.NewTemplate().With("c", formatByName[f], tySample[ty])
+	t := jsonline.NewTemplate().With("c", formatByName[f], nextSample(ty))
 	ext := map[string]string{}
 	extForValue(v, ext)
 	if sv, ok := v.(string); ok {
@@ -310,7 +310,7 @@ func emitImpAfterValue(cw *caseWriter, prop, f, ty, f2, ty2 string, held, v inte
 // (f, ty) — by key, through Row.Import of a map, or through the cell — : by the API's contract the Value hands its
 // format, raw value and raw type over to the cell. What the CELL then declares and holds is observed (`decl=`).
 func emitImpValue(cw *caseWriter, prop, f, ty, f2, ty2 string, held interface{}, how int) {
-	t := jsonline.NewTemplate().With("c", formatByName[f], tySample[ty])
+	t := jsonline.NewTemplate().With("c", formatByName[f], nextSample(ty))
 	ext := map[string]string{}
 	var val jsonline.Value
 	impl := "-"
@@ -350,7 +350,7 @@ func emitImpValue(cw *caseWriter, prop, f, ty, f2, ty2 string, held interface{},
 // emitImpVia: a JSON string handed to the CELL's own json.Unmarshaler (json.Unmarshal(data, cell)) — for a string this
 // is Import(the string), so the case is judged as an `imp` case.
 func emitImpVia(cw *caseWriter, prop, f, ty string, v string) {
-	t := jsonline.NewTemplate().With("c", formatByName[f], tySample[ty])
+	t := jsonline.NewTemplate().With("c", formatByName[f], nextSample(ty))
 	ext := map[string]string{}
 	extForText(v, ext)
 	impl := "-"
@@ -385,7 +385,7 @@ func emitImpVia(cw *caseWriter, prop, f, ty string, v string) {
 // emitImpAfter: the same import into a cell (and row) that has just REJECTED something else (before, when not
 // nil): a refused value leaves the cell as it was — declared format and raw type included.
 func emitImpAfter(cw *caseWriter, prop, f, ty string, before []interface{}, v interface{}) {
-	t := jsonline.NewTemplate().With("c", formatByName[f], tySample[ty])
+	t := jsonline.NewTemplate().With("c", formatByName[f], nextSample(ty))
 	ext := map[string]string{}
 	extForValue(v, ext)
 	if sv, ok := v.(string); ok {
@@ -544,7 +544,7 @@ func genC13(cw *caseWriter, seed uint64, tier string) {
 				emitTyped(cw, f, ty, v)
 			}
 			// the same values through one exporter and one importer, the rows held until the end
-			t := jsonline.NewTemplate().With("c", formatByName[f], tySample[ty])
+			t := jsonline.NewTemplate().With("c", formatByName[f], nextSample(ty))
 			var buf bytes.Buffer
 			exp := t.GetExporter(&buf)
 			// a null first: a cell that is still nil when later lines are read must stay nil
